@@ -285,6 +285,30 @@ def fn_proj3d(spec, rec):
     back = GlueUnSerializer.loads(GlueSerializer(roi).dumps()).object("__main__")
     if not np.array_equal(np.asarray(back.contains3d(x, y, z)), got):
         raise Mismatch("proj3d/roundtrip-differs", None)
+    cp = roi.copy()
+    if not np.array_equal(np.asarray(cp.contains3d(x, y, z)), got):
+        raise Mismatch("proj3d/copy-differs", None)
+    # moving / rotating the projected region acts on the screen-space region: the reported centre is the new one and the
+    # contained points are those of the moved / rotated 2-d region (oracle: signed distance of the edited spec)
+    if rs["k"] in ("rect", "circ", "ellipse") and spec.get("move"):
+        dx, dy = spec["move"]
+        c0 = G.center_of(rs)
+        moved = gen.build_roi(rs)
+        moved.move_to(c0[0] + dx, c0[1] + dy)       # the 2-d behaviour is established by the roi2d check
+        roi.move_to(c0[0] + dx, c0[1] + dy)
+        cx, cy = roi.center()
+        if not (abs(cx - (c0[0] + dx)) <= 1e-9 * (1 + abs(cx)) and abs(cy - (c0[1] + dy)) <= 1e-9 * (1 + abs(cy))):
+            raise Mismatch("proj3d/center-after-move", {"got": [float(cx), float(cy)], "expected": [c0[0] + dx, c0[1] + dy]})
+        d2 = np.where(finite, G.signed(rs, np.where(finite, sx - dx, 0.0), np.where(finite, sy - dy, 0.0)), 0.0)
+        ok2 = finite & (np.abs(d2) > G.tau(rs, np.where(finite, sx, 0), np.where(finite, sy, 0)) * 100)
+        got2 = np.asarray(roi.contains3d(x, y, z)).reshape(-1)
+        if (ok2 & (got2 != (d2 > 0))).any():
+            raise Mismatch("proj3d/contains3d-wrong-after-move", {"move": [dx, dy], "roi": rs["k"]})
+        px, py = roi.to_polygon()
+        mx, my = moved.to_polygon()
+        if not (np.allclose(px, mx) and np.allclose(py, my)):
+            raise Mismatch("proj3d/to_polygon-differs-from-2d-region", None)
+        rec.label("proj3d-moved")
     nchunks = 1 if not k else -(-x.size // k)
     rec.nt(bool((ok & exp).any() and (ok & ~exp).any()) and nchunks > 1)
     rec.label("chunks:%s" % ("1" if nchunks == 1 else ">1"), "roi:" + rs["k"])
@@ -377,7 +401,8 @@ def proj_cases(draw):
     shape = None
     if n % 2 == 0 and draw(st.booleans()):
         shape = [2, n // 2]
-    return {"roi": rs, "matrix": M, "pts": pts, "shape": shape, "chunk": draw(st.sampled_from([None, 1, 2, 3, 7, 16]))}
+    move = draw(st.one_of(st.none(), st.tuples(st.sampled_from([-1.5, -0.25, 0.0, 0.5, 2.0]), st.sampled_from([-1.0, 0.0, 0.75, 3.0])).map(list)))
+    return {"roi": rs, "matrix": M, "pts": pts, "shape": shape, "chunk": draw(st.sampled_from([None, 1, 2, 3, 7, 16])), "move": move}
 
 
 @st.composite
